@@ -296,6 +296,14 @@ def fuzz_history(s, hidx, weights, steps=(5, 30), text='plain', timing='any', ri
             ro, err, v, ev = s.step(ro, msg, {'history': hidx, 'step': k})
         if ev is not None and ev.get('post_xml'):
             cur = ev['post_xml']
+            if hidx % 3 == 2:
+                # every third history: IDs of stories that are gone may come back in later messages
+                ids.rng = rng
+                try:
+                    now = set(Abs(cur).story_ids)
+                    ids.recycled.extend(x_ for x_ in state.story_ids if x_ and x_ not in now and x_ not in ids.recycled)
+                except ET.ParseError:
+                    pass
         if on_state:
             on_state(ro, cur, ev)
         if state.completed or (ev is not None and Abs(cur).completed):
@@ -489,6 +497,28 @@ def make_collection(s, docs, how, allow_incomplete, tmpdir=None, names=None):
         EV.STATE['quiet'] -= 1
 
 
+def acceptable(docs, allow_incomplete):
+    """The acceptance rule of collections (C11): one running-order ID, exactly one roCreate, at most one
+    roDelete - exactly one unless incompleteness is allowed."""
+    from xml.etree import ElementTree as ET
+    from ..spec import classify_doc
+    try:
+        roots = [ET.fromstring(d) for d in docs]
+        classes = [classify_doc(r) for r in roots]
+    except Exception:
+        return False
+    if any(c in (None, 'UnknownMosFileType') for c in classes):
+        return False
+    roids = set()
+    for root in roots:
+        for c in root:
+            r = c.find('roID')
+            if r is not None:
+                roids.add(r.text)
+    n_c, n_d = classes.count('RunningOrder'), classes.count('RunningOrderEnd')
+    return len(docs) >= 1 and len(roids) == 1 and n_c == 1 and n_d <= 1 and (allow_incomplete is True or n_d == 1)
+
+
 def merge_collection(s, mc, strict):
     """mc.merge under an always filter.  Returns (exc|None, warning names)."""
     import warnings as W
@@ -631,6 +661,51 @@ def pair_histories(s, kinds=None, rounds=5, text='plain', timing='any', on_state
                 if on_state:
                     on_state(ro, cur, ev)
     s.hist['pair_histories_total'] = idx
+
+
+# --------------------------------------------------------------------------
+# delete, then create again under the same ID (the NCS re-creates a story, or moves it by delete + insert):
+# on ONE running-order object.  What a running order remembers about elements that are gone shows here.
+
+def recreate_cases(s, level='both'):
+    new = lambda i: gen.simple_story(i, 2)
+    idx = 0
+    for layout in ('none', 'between'):
+        ro_txt = gen.grid_ro(['A', 'B', 'C', 'D'], layout, pretty=False)
+        if level in ('both', 'story'):
+            deletes = [('roStoryDelete', dict(ids=['B'])), ('EAStoryDelete', dict(ids=['B'])), ('roStoryDelete', dict(ids=['B', 'C'])),
+                       ('roStoryReplace', dict(target='B', carried=[new('N0')])), ('EAStoryReplace', dict(target='B', carried=[new('N0')]))]
+            creates = [('roStoryInsert', dict(target='D', carried=[new('B')])), ('EAStoryInsert', dict(target='A', carried=[new('N1'), new('B')])),
+                       ('EAStoryInsert', dict(target=B.BLANK, carried=[new('B')])), ('roStoryAppend', dict(carried=[new('B'), new('N2')])),
+                       ('roStoryReplace', dict(target='A', carried=[new('B')])), ('EAStoryReplace', dict(target='D', carried=[new('B'), new('N3')]))]
+            follow = [('roStoryMove', dict(ids=['B'], target='A')), ('roStorySend', dict(story_ref='B', body=[B.E('p', 'again')], fields=['BODY'])),
+                      ('roItemInsert', dict(story_ref='B', target=B.BLANK, carried=[B.item('late', 'x')]))]
+        else:
+            deletes, creates, follow = [], [], []
+        if level in ('both', 'item'):
+            ideletes = [('roItemDelete', dict(story_ref='B', ids=['B.0'])), ('EAItemDelete', dict(story_ref='B', ids=['B.0'])),
+                        ('roItemReplace', dict(story_ref='B', target='B.0', carried=[B.item('n0', 'x')]))]
+            icreates = [('roItemInsert', dict(story_ref='B', target='B.1', carried=[B.item('B.0', 'back')])),
+                        ('EAItemInsert', dict(story_ref='B', target=B.BLANK, carried=[B.item('n1', 'x'), B.item('B.0', 'back')])),
+                        ('roItemReplace', dict(story_ref='B', target='B.1', carried=[B.item('B.0', 'back')])),
+                        ('roItemInsert', dict(story_ref='C', target=B.BLANK, carried=[B.item('B.0', 'elsewhere')]))]
+            ifollow = [('roItemMoveMultiple', dict(story_ref='B', ids=['B.0'], target=B.BLANK))]
+        else:
+            ideletes, icreates, ifollow = [], [], []
+        for dels, crs, fol in ((deletes, creates, follow), (ideletes, icreates, ifollow)):
+            for d_ in dels:
+                for c_ in crs:
+                    idx += 1
+                    if not s.mine(idx):
+                        continue
+                    ro = s.load(ro_txt)
+                    cur = ro_txt
+                    for step, (kind, kw) in enumerate([d_, c_] + fol[:1 + idx % len(fol)]):
+                        msg = B.msg_doc(kind, 10 + step, **kw)
+                        ro, err, v, ev = s.step(ro, msg, {'recreate': idx, 'step': step})
+                        if ev is not None and ev.get('post_xml'):
+                            cur = ev['post_xml']
+                    s.hist['recreate_histories'] += 1
 
 
 # --------------------------------------------------------------------------
@@ -819,6 +894,26 @@ def huge_cases(s, n_cases=2):
                   ('EAItemDelete', dict(story_ref='BIG', ids=[x, y])),
                   ('roItemInsert', dict(story_ref='BIG', target=x, carried=[B.item('n1', 'x'), B.item('n2', 'y')])),
                   ('roItemReplace', dict(story_ref='BIG', target=y, carried=[B.item('n3', 'x')]))]
+        # one message naming / carrying many elements (65, 130, 299): no cap on what a message may list
+        for cnt in (65, 130, 299):
+            sel = rng.sample(S[:-1], cnt)
+            tgt = rng.choice([x_ for x_ in S if x_ not in sel])
+            isel = rng.sample(I[:-1], cnt)
+            itgt = rng.choice([x_ for x_ in I if x_ not in isel])
+            new_s = lambda pre: [gen.simple_story('%s%d' % (pre, k_), 1, item_prefix='%s%d.' % (pre, k_)) for k_ in range(cnt)]
+            new_i = lambda pre: [B.item('%s%d' % (pre, k_), 'x') for k_ in range(cnt)]
+            cases += [('EAStoryMove', dict(ids=sel, target=tgt)), ('EAStoryMove', dict(ids=sel, target=B.BLANK)),
+                      ('roStoryDelete', dict(ids=sel)), ('EAStoryDelete', dict(ids=sel)),
+                      ('roStoryInsert', dict(target=tgt, carried=new_s('MI'))), ('EAStoryInsert', dict(target=tgt, carried=new_s('ME'))),
+                      ('roStoryAppend', dict(carried=new_s('MA'))), ('roStoryReplace', dict(target=tgt, carried=new_s('MR'))),
+                      ('roItemMoveMultiple', dict(story_ref='BIG', ids=isel, target=itgt)),
+                      ('EAItemMove', dict(story_ref='BIG', ids=isel, target=itgt)),
+                      ('EAItemMove', dict(story_ref='BIG', ids=isel, target=B.BLANK)),
+                      ('roItemDelete', dict(story_ref='BIG', ids=isel)), ('EAItemDelete', dict(story_ref='BIG', ids=isel)),
+                      ('roItemInsert', dict(story_ref='BIG', target=itgt, carried=new_i('mi'))),
+                      ('EAItemInsert', dict(story_ref='BIG', target=itgt, carried=new_i('me'))),
+                      ('roItemReplace', dict(story_ref='BIG', target=itgt, carried=new_i('mr')))]
+            s.hist['many_operand_messages'] += 16
         for kind, kw in cases:
             run_case(s, ro_txt, kind, kw, ctx={'huge': i})
         s.hist['huge_transitions'] += len(cases)
